@@ -58,6 +58,24 @@ CLAIMED.update({
                 technique='Coq proof (inversion of the matcher model, floor arithmetic) + per-call correspondence', design='DESIGN.md §5 C06'),
 })
 
+CLAIMED.update({
+    'C08': dict(text='Model of the event source and the executor (Model/EventLoop.v): for every strictly increasing list of trading days the daily run equals the prescribed '
+                     'sequence (BT OA BAR AT per day, one settlement between days and one after the last), clocks are monotone, minute bars are strictly increasing '
+                     'whatever universe changes happen (induction over days / restarts); PRE/POST brackets and the refusal of order APIs in init / before_trading / '
+                     'after_trading are finite obligations over tables regenerated from the source on every run (Gen/ApiPhases.v); every real run\'s published event '
+                     'sequence with clocks is replayed through the model inside coqc; monitors from the property text give the replay.',
+                technique='Coq proof (run = specification by induction) + regenerated finite tables + whole-run correspondence', design='DESIGN.md §5 C08'),
+    'C17': dict(text='Scheduler model (Model/Scheduler.v): cache invariant for every well-formed calendar and day sequence, day rules (weekday, n-th / n-th from last '
+                     'trading day, never in a shorter bucket), at most one firing per day of a bar time, phases of scheduled functions against the regenerated API '
+                     'phase table; every trading day of real runs (cache contents and every firing decision) is replayed through the model inside coqc.',
+                technique='Coq proof (monotone-bucket cache invariant, induction over bars) + regenerated finite tables + per-day correspondence', design='DESIGN.md §5 C17'),
+    'C20': dict(text='Calendar / history model (Model/Calendar.v) regenerated from trading_dates_mixin.py, data_source.history_bars, api_base.history_bars and '
+                     'adjust.py by the ast translator (Gen = Model lemmas); theorems: previous / next inverse on trading days, saturation, slices = filters, counts = '
+                     'lengths, window = last N bars not after the end date, end date by phase, adjustment scales by factor ratios; every recorded API call of real runs '
+                     'is replayed through the model inside coqc.',
+                technique='Coq proof (sorted-list lemmas by induction) + regenerated model equality lemmas + per-call correspondence', design='DESIGN.md §5 C20'),
+})
+
 ALL = ['C%02d' % i for i in range(1, 21)]
 
 
